@@ -336,6 +336,19 @@ func c04(c *Ctx) {
 					c.R.Fail("writeto-bytes", "%s: WriteTo bytes (%d) differ from Persist bytes (%d)", id, buf.Len(), len(data))
 				}
 				c.R.Inc("bytes_compared", int64(len(data)))
+				// "WriteTo emits these bytes" also when the destination takes only a
+				// prefix: a reported success means the whole image reached the writer
+				for _, l := range []int{0, len(data) / 2, len(data) - 53, len(data) - 52, len(data) - 4, len(data) - 1} {
+					if l < 0 {
+						continue
+					}
+					w := &failWriter{limit: l, short: l%2 == 0}
+					if n, err := writeTo(seg, w); err == nil {
+						c.R.Fail("writeto-short", "%s: WriteTo reported success (n=%d) although only %d of %d bytes reached the writer", id, n, len(w.buf), len(data))
+						break
+					}
+					c.R.Inc("writeto_prefix_destinations", 1)
+				}
 			}
 			if uint64(len(data)) != size+52 {
 				c.R.Fail("size", "%s: New reported %d bytes, file has %d (= %d + footer 52?)", id, size, len(data), size)
